@@ -14,6 +14,18 @@ NOTE = ('Trusted: clang 14 front end, the extractor tools/theo_facts.cc, the Pyt
         'executed.')
 
 CLAIMS = {
+    'C08': ('pairing / who-may-write rules over the two breakpoint tables; constant agreement across units',
+            'Decides that both tables are updated together with the index of the emitted site and the current location, that '
+            'removal is exact, that nobody else writes the tables or creates sites, that the hidden file is excluded by the '
+            'same constant parse() uses, and that locations are copied pairwise from token positions: inverse-ness for all '
+            'compiled programs by induction over emissions.', '4/C08'),
+    'C16': ('who-may-write + dominance (registration after body), dominance chain and name-privacy of the LOOP counter',
+            'Decides acyclicity of the call graph of every accepted source structurally (a routine is entered into the table only '
+            'after its body and RET were generated; EXEC only after a successful lookup) and that the LOOP counter is a private, '
+            'unique register written only by the decrement between head and back-jump. Halting follows by induction, not by running.', '4/C16'),
+    'C07': ('emission-discipline rules (dominance, call-site inventories, constant agreement)',
+            'PARTIAL. Decides the named necessary conditions of faithful stepping (listed in DESIGN.md 4/C07); it does not decide '
+            'the exact stop sequence of arbitrary programs, which depends on run-time paths.', '4/C07'),
     'C03': ('generator invariants: dominance on the CFG, register-provenance lattice, single-definition origin tracking; VM frame roles from handler summaries',
             'Decides the four well-formedness lemmas (root frame/HALT, jumps backpatched to labels set exactly once, every '
             'register operand from the current routine allocator and frame size recorded after the last allocation with one '
